@@ -247,6 +247,73 @@ def run(prog, rep, tier):
     if not users:
         raise CheckerError("R7.9: the modification-time converters have no caller reachable from the workers or main")
 
+    # ------------------------------------------------------------ R7.11 names and times taken from archive members are made safe before std sees them
+    R711 = rep.rule("R7.11", "archive-member data is sanitised before it reaches a panicking std API (thread name, SystemTime arithmetic, recursive classification)")
+    # (a) thread names: std panics on an interior NUL; a PAX path may contain one
+    plb = prog.body("s4::processing_loop")
+    nmc = [c for c in plb.live_calls() if c.d.endswith("thread::Builder::name")]
+    for c in nmc:
+        o_ = plb.origins(c.args[1], through_calls=("::into", "Clone>::clone", "::clone", "::to_string", "::to_owned"))
+        cleaned = any(x[0] == "call" and x[2].split("::")[-1] in ("replace", "replacen", "retain", "filter", "escape_default", "escape_debug", "to_string_lossy") for x in o_)
+        if cleaned:
+            # the replace must be about NUL
+            cleaned = False
+            for x in o_:
+                if x[0] == "call" and x[2].split("::")[-1] in ("replace", "replacen"):
+                    rc = [z for z in plb.calls if z.bb == x[1]][0]
+                    ks = [a[2] for a in rc.args if a[0] == "k"]
+                    if any(str(k_) in ("\x00", "\0", "'\\0'", "'\\x00'") or k_ == "\u0000" or str(k_).strip("'") in ("\\0", "\\x00", "\x00") for k_ in ks):
+                        cleaned = True
+                elif x[0] == "call" and x[2].split("::")[-1] in ("escape_default", "escape_debug"):
+                    cleaned = True
+        rep.examined(R711, "s4::processing_loop|thread-name", sample={"line": c.line, "nul_removed_or_escaped": cleaned})
+        if not cleaned:
+            rep.violation(R711, "s4::processing_loop|thread-name", "processing_loop names the worker thread after the file (line %d) without removing NUL bytes; a tar member whose PAX path contains a NUL makes "
+                          "thread::Builder::name panic in the main thread: exit 134, nothing printed" % c.line)
+    if not nmc:
+        raise CheckerError("R7.11: thread::Builder::name call not found")
+    # (b) SystemTime + Duration::from_secs(header value) overflows for large values
+    for p_ in sorted(reach):
+        ab = prog.body(p_, required=False)
+        if ab is None or not p_.startswith("s4lib::"):
+            continue
+        for c in ab.live_calls():
+            if "std::time::SystemTime" in c.d and c.d.endswith("::add") or (c.d.endswith("Add<std::time::Duration>>::add") and "SystemTime" in c.d):
+                big = False
+                for x in ab.origins(c.args[1]):
+                    if x[0] == "call" and x[2].split("::")[-1] in ("from_secs", "from_secs_f64", "new"):
+                        dc = [z for z in ab.calls if z.bb == x[1]][0]
+                        if dc.args and ab.eval_int(dc.args[0]) is None:
+                            big = True
+                rep.examined(R711, "%s|systemtime-add" % p_, sample={"site": p_.split("::")[-1], "line": c.line, "seconds_not_constant": big})
+                if big:
+                    rep.violation(R711, "%s|systemtime-add" % p_, "%s (line %d): `SystemTime + Duration::from_secs(x)` with x taken from the input panics when the sum does not fit (tar member with mtime 2^64-1: "
+                                  "'overflow when adding duration to instant', exit 134); use the checked conversion" % (p_.split("::")[-1], c.line))
+    # (c) member names are bounded before the recursive classification
+    tb_ = prog.body("s4lib::readers::filepreprocessor::process_path_tar")
+    cls = [c for c in tb_.live_calls() if c.d.endswith("::path_to_filetype") or c.d.endswith("::pathbuf_to_filetype")]
+    if not cls:
+        raise CheckerError("R7.11: process_path_tar does not classify member names (idiom not recognised)")
+    lens = [c for c in tb_.live_calls() if c.d.split("::")[-1] == "len" and ("OsStr" in c.d or "str" in c.d or "Path" in c.d or "String" in c.d)]
+    bounded = False
+    for sw in sorted(tb_.live):
+        t_ = tb_.term(sw)
+        if t_[0] != "switch":
+            continue
+        os_ = tb_.origins(t_[1])
+        for x in os_:
+            if x[0] == "bin":
+                st_ = tb_.stmts(x[1])[x[2]]
+                if st_[2][1] in ("Gt", "Ge", "Lt", "Le"):
+                    has_len = any(y[0] == "call" and y[1] in [l_.bb for l_ in lens] for a in (st_[2][2], st_[2][3]) if a[0] != "k" for y in tb_.origins(a))
+                    has_const = any(tb_.eval_int(a) is not None for a in (st_[2][2], st_[2][3]))
+                    if has_len and has_const and all(tb_.dominates(sw, c.bb) for c in cls):
+                        bounded = True
+    rep.examined(R711, tb_.path + "|member-name-length", sample={"classification_calls": len(cls), "name_length_tested_against_a_constant_first": bounded})
+    if not bounded:
+        rep.violation(R711, tb_.path + "|member-name-length", "process_path_tar classifies member names of any length; classification recurses once per dot-separated component, so a PAX path with 200000 numeric "
+                      "suffixes overflows the main thread's stack (exit 134, nothing printed)")
+
     # ------------------------------------------------------------ R7.8
     import signedidx
     R78 = rep.rule("R7.8", "a signed record field converted to usize (table index) is guarded non-negative")
